@@ -405,7 +405,7 @@ CLAUSE_PROP = {
     "virtual": "C03", "shadow": "C03",
     "C02.closed": "C02", "C02.sym": "C02", "C02.owner": "C02", "C02.lookup-unlisted": "C02",
     "broken-listing": "C02",
-    "keys": "C11", "flags": "C12", "components": "C16", "counts": "C16",
+    "keys": "C11", "nbrs": "C11", "etype": "C11", "flags": "C12", "components": "C16", "counts": "C16",
 }
 
 
